@@ -213,6 +213,43 @@ pub fn run(ctx: &Ctx, rep: &mut Report) {
         }
     }
 
+    // fixed layout probes: line breaks before / after every operator spelling, in plain
+    // expressions and in unparenthesised lambda bodies
+    for op in BINOPS.iter() {
+        let natural = matches!(*op, "and" | "or" | "via" | "into" | "where");
+        let chain = matches!(*op, "via" | "into" | "where");
+        let mut variants: Vec<(String, String)> = vec![
+            (format!("a {} b", op), format!("a\n  {} b", op)),
+            (format!("a {} b", op), format!("a // c\n  {} b", op)),
+            (format!("[a {} b]", op), format!("[a\n{} b]", op)),
+            (format!("f(a {} b)", op), format!("f(a\n    {} b)", op)),
+        ];
+        if !natural {
+            variants.push((format!("a {} b", op), format!("a {}\n  b", op)));
+            variants.push((format!("a {} b", op), format!("a\n{}\nb", op)));
+        }
+        if !chain {
+            variants.push((format!("x => a {} b", op), format!("x => a\n  {} b", op)));
+            variants.push((format!("g = (x, y) => x {} y {} 1", op, op), format!("g = (x, y) => x\n  {} y\n  {} 1", op, op)));
+            variants.push((format!("[1] via x => a {} b", op), format!("[1] via x => a\n  {} b", op)));
+        } else {
+            variants.push((format!("l via x => a {} b", op), format!("l via x => a\n  {} b", op)));
+        }
+        for (reference, variant) in variants {
+            rep.case(&variant, true);
+            match (guarded(|| parse_plain(&reference)), guarded(|| parse_plain(&variant))) {
+                (Ok(Ok(r)), Ok(Ok(v))) => {
+                    if !asts_equal(&r, &v) {
+                        rep.finding("oracle", "layout-changes-parse", &variant, &format!("reference text {:?}", reference), "c10.layout");
+                    }
+                }
+                (Ok(Ok(_)), Ok(Err(e))) => rep.finding("oracle", "layout-rejected", &variant, &format!("reference text {:?} :: {}", reference, e.lines().next().unwrap_or("")), "c10.layout"),
+                (Ok(Err(e)), _) => rep.finding("oracle", "reference-text-rejected", &reference, e.lines().next().unwrap_or(""), "c10.layout"),
+                _ => rep.finding("oracle", "panic", &variant, "parser panicked", "c10.panic"),
+            }
+        }
+    }
+
     // ---- 3. word and symbol spellings evaluate identically ----------------------------------
     let vals = ["true", "false", "[true, false]", "[false]", "[]", "1", "null", "\"s\"", "[true, 1]", "[[true]]", "(x => x)"];
     for a in vals.iter() {
